@@ -178,8 +178,12 @@ def get_arg_defaults(task: "Task", args: tuple, kwargs: dict) -> dict:
 
     sig = task.signature
     for i, param in enumerate(sig.parameters.values()):
-        if i < len(args):
+        if (
+            param.kind in (param.POSITIONAL_ONLY, param.POSITIONAL_OR_KEYWORD)
+            and i < len(args)
+        ):
             # User already specified this arg in args.
+            # Parameters after a variadic parameter can never be specified positionally.
             continue
 
         elif param.name in kwargs:
